@@ -52,7 +52,10 @@ def m2(ctx, worker, trace_module, trace_cfg, n_events, make_negatives, shards=16
        evkeys=None, timeout_s=3000, extra_case=None, strip=("kind", "msg")):
     per = max(1, n_events // shards)
     cs = [dict(id=k, mode="m2", seed=ctx.seed * 100003 + k, n=per, **(extra_case or {})) for k in range(shards)]
-    out = ctx.run_impl(worker, cs, nproc=shards, timeout_s=timeout_s)
+    # one case = one shard of many calls: the per-case watchdog must allow for the whole shard on a busy machine (a shard of the
+    # quick tier normally takes well under a minute); a call that really never returns is still reported, only later
+    out = ctx.run_impl(worker, cs, nproc=shards, timeout_s=max(timeout_s, 3000 if ctx.quick else 9000),
+                       env=dict(VERIF_CASE_TIMEOUT=900 if ctx.quick else 3000))
     events = []
     nid = 0
     for e in extra_events:
